@@ -541,6 +541,14 @@ def judge_case(spec, rec):
         rec.cls('subgrader-object-shared-with-a-rival-list')
     kind, val = call(grader, expect_arg, text)
     rec.calls()
+    # the very same submission once more on the same grader object (a student pressing "submit" again, a rescore): same
+    # outcome, whether the first call returned or raised (a seeded change remembered the last input before checking it)
+    kind2, val2 = call(grader, expect_arg, text)
+    rec.calls()
+    same = kind2 == kind and (val2 == val if kind == 'ok' else (type(val2) is type(val) and str(val2) == str(val)))
+    if not same:
+        raise Violation('resubmission/outcome-differs', 'the same submission %r graded twice on one grader object: first %s, '
+                        'then %s' % (text, (kind, str(val)[:150]), (kind2, str(val2)[:150])), input=text)
 
     ctx = Ctx(spec)
     top = {}
